@@ -150,6 +150,132 @@ def children(decisions, prefix_len, bound):
     return out
 
 
+_READ_SYS = {"stat", "lstat", "newfstatat", "statx", "access", "faccessat", "faccessat2", "readlink", "readlinkat", "read", "pread64", "readv",
+             "preadv", "lseek", "fstat", "getdents64", "getdents"}
+_LIST_SYS = {"getdents64", "getdents", "rmdir"}
+_OPEN_SYS = {"open", "openat", "openat2", "creat"}
+_FDWRITE_SYS = {"write", "pwrite64", "writev", "pwritev", "ftruncate", "fallocate", "fchmod", "fchown", "fsync", "fdatasync", "mmap", "fsetxattr", "futimens"}
+
+
+def accesses(d, dir_exists):
+    """Access summary of one file-system step: {"acc": [[path, "r"|"w"], ...], "lists": bool}, or None when the step
+    cannot be classified (then it is dependent on everything). "w" = may change the existence, identity or content
+    of what the path names; "r" = only depends on it. The classification is static per system call, with one
+    state-dependent refinement: mkdir of a directory that exists at the node where the step is pending changes nothing
+    (it fails with EEXIST whatever is swapped around it, unless the directory itself is removed - and that removal is a
+    "w" on the same path, hence dependent)."""
+    sysn = d.get("sys")
+    paths = [x for x in (d.get("paths") or []) if x]
+    fdp = d.get("fd_path")
+    flags = d.get("flags")
+    if sysn in _OPEN_SYS:
+        if not paths or flags is None or flags < 0:
+            return None
+        mut = sysn == "creat" or (flags & 3) != 0 or (flags & 0o100) or (flags & 0o1000)
+        return {"acc": [[paths[0], "w" if mut else "r"]], "lists": False}
+    if sysn in ("mkdir", "mkdirat"):
+        if not paths:
+            return None
+        return {"acc": [[paths[0], "r" if dir_exists(paths[0]) else "w"]], "lists": False}
+    if sysn in _READ_SYS:
+        ps = paths or ([fdp] if fdp else [])
+        if not ps:
+            return None
+        return {"acc": [[x, "r"] for x in ps], "lists": sysn in _LIST_SYS}
+    if sysn in _FDWRITE_SYS:
+        if not fdp:
+            return None
+        return {"acc": [[fdp, "w"]], "lists": False}
+    if sysn in ("link", "linkat") and len(paths) >= 2:
+        return {"acc": [[paths[0], "r"], [paths[-1], "w"]], "lists": False}
+    if sysn in ("symlink", "symlinkat") and paths:
+        return {"acc": [[paths[-1], "w"]], "lists": False}
+    ps = paths + ([fdp] if fdp else [])
+    if not ps:
+        return None
+    # unlink, rmdir, rename*, truncate, chmod, ioctl(FICLONE*), anything unforeseen: a write of every path it names
+    return {"acc": [[x, "w"] for x in ps], "lists": True if sysn not in ("unlink", "unlinkat", "rename", "renameat", "renameat2", "truncate", "chmod") else sysn == "rmdir"}
+
+
+def dependent(a, b):
+    """Conservative dependence of two file-system steps of DIFFERENT processes (they share nothing but the file system):
+    same path with at least one write; or one writes (creates / removes / renames) a directory that is an ancestor of a
+    path the other names; or one lists (or removes) an ancestor directory while the other writes below it."""
+    if a is None or b is None:
+        return True
+    for x, ka in a["acc"]:
+        for y, kb in b["acc"]:
+            if x == y:
+                if ka == "w" or kb == "w":
+                    return True
+            elif y.startswith(x.rstrip("/") + "/"):      # x is an ancestor of y
+                if ka == "w" or (a["lists"] and kb == "w"):
+                    return True
+            elif x.startswith(y.rstrip("/") + "/"):      # y is an ancestor of x
+                if kb == "w" or (b["lists"] and ka == "w"):
+                    return True
+    return False
+
+
+def children_sleep(decisions, steps, prefix_len, sleep0, init_dirs):
+    """Sleep-set partial-order reduction (Godefroid) for UNBOUNDED exploration of separate processes: returns
+    [(schedule prefix, sleep set at the node after that prefix)]. Every Mazurkiewicz trace (class of interleavings that
+    differ only in the order of adjacent independent steps) is still executed at least once; an interleaving is pruned
+    only when it differs from an explored one by swaps of independent steps. steps = the executed step records (for the
+    results of mkdir/rmdir/rename, from which the directories existing at each node are derived); init_dirs = the
+    directories existing before the execution. Sleep sets are lists of [actor, access summary of its pending step]."""
+    if len(steps) != len(decisions) or any(s["actor"] != d["chosen"] or s["sys"] != d["sys"] for s, d in zip(steps, decisions)):
+        raise TracerError("step log and decision log disagree")
+    chosen = [d["chosen"] for d in decisions]
+    events = []   # (index, +1/-1, path): directories created / removed by the executed steps
+    for j, s_ in enumerate(steps):
+        if s_.get("ret") == 0 and s_.get("paths"):
+            if s_["sys"] in ("mkdir", "mkdirat"):
+                events.append((j, 1, s_["paths"][0]))
+            elif s_["sys"] == "rmdir":
+                events.append((j, -1, s_["paths"][0]))
+            elif s_["sys"] in ("rename", "renameat", "renameat2"):
+                events.append((j, -1, s_["paths"][0]))
+
+    def dir_exists_at(i):
+        def f(path):
+            ex = path in init_dirs
+            for (j, sign, p_) in events:
+                if j >= i:
+                    break
+                if p_ == path:
+                    ex = sign > 0
+            return ex
+        return f
+
+    def pending(i, b):
+        for j in range(i, len(decisions)):
+            if decisions[j]["chosen"] == b:
+                return accesses(decisions[j], dir_exists_at(i))
+        return None   # never ran again in this execution: unknown = dependent on everything
+
+    sleep = {a: acc for a, acc in (sleep0 or [])}
+    out = []
+    for i in range(prefix_len, len(decisions)):
+        d = decisions[i]
+        c = d["chosen"]
+        cacc = accesses(d, dir_exists_at(i))
+        done = {}
+        if c not in sleep:
+            done[c] = cacc
+        for alt in d["enabled"]:
+            if alt == c or alt in sleep:
+                continue
+            aacc = pending(i, alt)
+            child_sleep = [[s_, acc] for s_, acc in list(sleep.items()) + list(done.items()) if s_ != alt and not dependent(acc, aacc)]
+            out.append((chosen[:i] + [alt], child_sleep))
+            done[alt] = aacc
+        if c in sleep:
+            break    # the rest of this execution repeats an explored trace; its non-sleeping alternatives were just queued
+        sleep = {s_: acc for s_, acc in sleep.items() if not dependent(acc, cacc)}
+    return out
+
+
 def count_schedules_upper(n_steps_a, n_steps_b):
     from math import comb
     return comb(n_steps_a + n_steps_b, n_steps_a)
